@@ -762,12 +762,16 @@ func (f *STFS) Rename(oldname, newname string) error {
 	f.ioLock.Lock()
 	defer f.ioLock.Unlock()
 
-	if root, err := f.metadata.Metadata.GetRootPath(context.Background()); err != nil || root == oldname {
+	// `d`, `./d` and `/d` name the same entry, so compare the names as anchored at the root
+	anchoredOldname := filepath.Join("/", oldname)
+	anchoredNewname := filepath.Join("/", newname)
+
+	if root, err := f.metadata.Metadata.GetRootPath(context.Background()); err != nil || filepath.Join("/", root) == anchoredOldname {
 		return os.ErrInvalid
 	}
 
 	// An entry can't be moved into its own subtree
-	if strings.HasPrefix(newname, strings.TrimSuffix(oldname, "/")+"/") {
+	if strings.HasPrefix(anchoredNewname, strings.TrimSuffix(anchoredOldname, "/")+"/") {
 		return os.ErrInvalid
 	}
 
@@ -832,7 +836,7 @@ func (f *STFS) Rename(oldname, newname string) error {
 		}
 
 		// Renaming an entry onto itself is a no-op
-		if oldname == newname {
+		if anchoredOldname == anchoredNewname {
 			return nil
 		}
 
